@@ -3,7 +3,7 @@
 \* behind, this makes the specification an executable account of compile(text).selectors for the C01 / C02 grammar
 \* (type / universal with namespace prefix, id, class, attribute selectors, :not / :is / :where / :matches / :has,
 \* structural pseudo-classes, An+B with "of S", :scope / &, the no-match pseudo-classes, combinators, lists,
-\* forgiven empty slots).  Only applied to texts the parser accepts (Parser.tla decides that).
+\* forgiven empty slots, :lang(), :dir(), the contains pseudo-classes).  Only applied to texts the parser accepts (Parser.tla decides that).
 \*   ParseText(s) = selector list (Seq(Complex))
 \* T-SpellingIR (MC_C09_gen): Compile(ParseText(respelling)) = Compile(ParseText(canonical)).
 \* Bound to the code by Trace_Parse: the real IR of a text = projection of Compile(ParseText(text)).
@@ -84,6 +84,14 @@ SimpleOf(nm) == CASE nm = KwRoot -> "root" [] nm = KwEmpty -> "empty" [] nm = Kw
 FnOf(nm) == CASE nm = KwNot -> "not" [] nm = KwIs -> "is" [] nm = KwWhere -> "where" [] nm = KwMatches -> "matches" [] nm = KwHas -> "has"
               [] nm \in NoMatchComplex -> "nomatch" [] OTHER -> "unsupported"
 
+\* VALUE (WSC* "," WSC* VALUE)* starting at i: the decoded values (parse_pseudo_lang / parse_pseudo_contains walk them with RE_VALUES)
+RECURSIVE ValueTexts(_, _)
+ValueTexts(s, i) ==
+    LET e == Value(s, i)
+        c == SkipWsc(s, e)
+    IN <<ValueText(s, i, e)>> \o (IF Ch(s, c) = 44 /\ Value(s, SkipWsc(s, c + 1)) # 0 THEN ValueTexts(s, SkipWsc(s, c + 1)) ELSE <<>>)
+KwContainsOwn == <<58,45,115,111,117,112,45,99,111,110,116,97,105,110,115,45,111,119,110>>
+
 \* ---- recursive descent over the token sequence --------------------------------
 \* results are records [v |-> value, n |-> index of the next token]
 RECURSIVE PList(_, _, _, _, _), PComplex(_, _, _, _), PCompound(_, _, _)
@@ -125,6 +133,15 @@ PCompound(s, T, i) ==
                                    oftype |-> k = "pseudo_nth_type", of |-> sub.v]
                           node == IF hasN THEN base @@ [raw |-> SubSeq(s, a0, a1 - 1)] ELSE base
                       IN Go((IF isOf THEN sub.n ELSE j) + 1, Append(acc, node))
+            ELSE IF k \in {"pseudo_lang", "pseudo_contains"}
+                 THEN LET e == PseudoName(s, T[j].a)
+                          nm == NameText(s, T[j].a, e)
+                          vals == ValueTexts(s, SkipWsc(s, e + 1))
+                      IN Go(j + 1, Append(acc, IF k = "pseudo_lang" THEN [k |-> "lang", ranges |-> vals]
+                                               ELSE [k |-> "contains", vals |-> vals, own |-> nm = KwContainsOwn]))
+            ELSE IF k = "pseudo_dir"
+                 THEN LET a0 == SkipWsc(s, PseudoName(s, T[j].a) + 1)
+                      IN Go(j + 1, Append(acc, [k |-> "dir", d |-> IF LowC(s[a0]) = 108 THEN "ltr" ELSE "rtl"]))
             ELSE [v |-> Append(acc, [k |-> "unsupported"]), n |-> j + 1]
     IN Go(i, <<>>)
 
